@@ -1288,6 +1288,16 @@ func (x *Exec) checkExit(st *State, fr *Frame, res []Value, panicking bool) {
 		return
 	}
 	x.addCoverAny(x.oblName("exit-reachable", 0, ""), st)
+	// every loop this path went through: some exit after it must be feasible (invariants plus the exit
+	// condition that contradict each other would make everything after the loop vacuously true)
+	if fr.fn == x.root {
+		li := x.loops(fr.fn)
+		for h, seen := range fr.loopSeen {
+			if ord, ok := li.headers[h]; ok && seen {
+				x.addCoverAny(x.oblName(fmt.Sprintf("loop%d/exit-reachable", ord), 0, ""), st)
+			}
+		}
+	}
 	// results
 	rs := fr.fn.Signature.Results()
 	for i := 0; i < rs.Len() && i < len(res); i++ {
@@ -1463,6 +1473,7 @@ func (x *Exec) opaqueCall(st *State, fr *Frame, resInstr ssa.Instruction, name s
 		res = append(res, x.freshValue(st, "ret_"+sanitize(name), results.At(i).Type()))
 	}
 	ev.Results = res
+	ev.Heap = copyHeap(st.heap) // the heap the callee saw (for at(call, e))
 	st.events = append(st.events, ev)
 	x.havocFor(st, fr, name)
 	if !isDefer && resInstr != nil {
